@@ -58,7 +58,9 @@ static Step gen_owner(Rng &r, const std::string &bias, int force_kind = -1)
 		s.set("idx", r.range(0, 1));
 		break;
 	case 2:
-		size = (int)r.range(0, 3);
+		// P-521 more often where signatures are the subject: its 66-octet coordinates make short r/s
+		// values (sign-side padding paths) two hundred times more frequent than on the other curves
+		size = (bias == "C05" || bias == "C12") ? (int)r.pick(std::vector<int>{0, 1, 2, 2, 2, 3}) : (int)r.range(0, 3);
 		break;
 	default:
 		size = (int)r.range(0, 1);
@@ -87,7 +89,7 @@ static Step gen_owner(Rng &r, const std::string &bias, int force_kind = -1)
 	else if (attr == 4)
 		a = (int)r.below(ARRAY_LEN(UNKNOWN_ALGS));
 	s.set("attr_alg", a);
-	s.set("kid", r.range(0, 3));
+	s.set("kid", r.chance(1, 6) ? r.range(4, 8) : r.range(0, 3)); // 4..8: long kids (255, 256, 257, 300, 2048 bytes)
 	s.set("kidn", r.range(0, 5));
 	s.set("use", r.chance(1, 2) ? 0 : r.range(0, 3));
 	s.set("ops", r.chance(1, 2) ? 0 : (int64_t)r.below(512));
@@ -100,6 +102,10 @@ static Step gen_owner(Rng &r, const std::string &bias, int force_kind = -1)
 		s.set("octpad", bias == "C09" && r.chance(1, 2) ? 2 : 1);
 	if (r.chance(1, 5))
 		s.set("decoy", r.range(1, 1000));
+	// a key document the owner broke (unknown OKP curve, RSA private part incomplete, EC coordinate
+	// missing): the import flags the item, yet nothing stops an application from handing it to a checker
+	if (kind != 0 && (bias == "C09" || bias == "C01" || bias == "C02") && r.chance(1, 8))
+		s.set("broken", r.range(1, 3));
 	return s;
 }
 
@@ -123,8 +129,8 @@ static void world_gen(Rng &r, Plan &p, Tier tier, uint64_t index)
 	int first_kind = -1;
 	for (int i = 0; i < n_owner; i++) {
 		Step o = gen_owner(r, bias, i == 1 ? first_kind : -1);
-		if (tier == THOROUGH && o.I("kind") == 1 && r.chance(1, 12))
-			o.set("fresh", r.range(1, 100000));
+		if (tier == THOROUGH && o.I("kind") == 1 && r.chance(1, 3))
+			o.set("size", r.range(4, 10)); // thorough tier: the unusual modulus sizes of the pool more often
 		if (bias == "C09" && i == 0) {
 			// stratified: run i uses oct length i mod 161 for the first owner (or a weak RSA/EC cell)
 			int cell = (int)(index % 200);
@@ -172,6 +178,8 @@ static void world_gen(Rng &r, Plan &p, Tier tier, uint64_t index)
 		v.set("explicit", ex);
 		v.set("exsel", (int64_t)r.below(64));
 		v.set("prov", r.chance(1, 2) ? 0 : 1);
+		if (r.chance(1, 4))
+			v.set("ctxupd", 1);
 		if (bias == "C06" && r.chance(1, 2))
 			v.set("expect", r.range(1, 7)); // bit0 iss, bit1 sub, bit2 aud expectations
 		push(v);
@@ -192,6 +200,8 @@ static void world_gen(Rng &r, Plan &p, Tier tier, uint64_t index)
 		s.set("claims_seed", (int64_t)r.below(1 << 30));
 		s.set("iat", r.chance(3, 4) ? 1 : 0);
 		s.set("typ", r.chance(1, 5) ? 1 : 0);
+		if (r.chance(1, 4))
+			s.set("ctxupd", 1);
 		// exp offset: none, short, 20 years, 2^40 seconds (time_t arithmetic must not be narrowed)
 		if (r.chance(1, 3))
 			s.set("exp_off", (int64_t)r.pick(std::vector<int64_t>{60, 3600, 631152000LL, 1LL << 40, (1LL << 31) + 5}));
@@ -213,10 +223,14 @@ static void world_gen(Rng &r, Plan &p, Tier tier, uint64_t index)
 	int issued = 0;
 	for (int e = 0; e < n_ev; e++) {
 		int roll = (int)r.below(100);
-		if (issued == 0 || roll < (bias == "C05" ? 40 : 22)) {
+		if (issued == 0 || roll < (bias == "C05" || bias == "C12" ? 40 : 22)) {
 			if (r.chance(1, 2)) {
 				Step s("ISSUE");
 				s.set("issuer", (int64_t)r.below((uint64_t)n_iss));
+				// bursts: many signatures from one issuer, so that rare signer events (r or s one or two
+				// octets short: 1 in 256 / 1 in 65536, on P-521 1 in 2 / 1 in 512) occur many times
+				if ((bias == "C05" || bias == "C12") && r.chance(1, 3))
+					s.set("burst", r.range(4, 40));
 				push(s);
 			} else {
 				Step s("REFISSUE");
@@ -317,6 +331,7 @@ struct Owner {
 	KeyRef truth;
 	LoadedKey priv, pub;
 	bool ok = false;
+	bool broken = false; // the published documents are defective on purpose: items exist but are flagged
 	int key_alg = JWT_ALG_NONE; // what the JWK's alg attribute denotes (NONE absent, INVAL unknown)
 	int kind = 0;
 };
@@ -514,12 +529,7 @@ static Owner make_owner(World &w, const Step &s, uint64_t salt)
 		o.truth = key_gen_oct(kr, (size_t)(size < 0 ? 0 : size > 4096 ? 4096 : size));
 		break;
 	case 1:
-		if (s.I("fresh")) {
-			// thorough tier: a freshly generated modulus of an unusual size (2048..4096 in steps of 8)
-			o.truth = key_rsa_fresh(2048 + 8 * (int)((uint64_t)s.I("fresh") % 257));
-			ctx.count("probe:rsa_key_freshly_generated");
-		} else
-			o.truth = key_rsa_pool(RSA_POOL_BITS[((size % N_RSA_POOL_BITS) + N_RSA_POOL_BITS) % N_RSA_POOL_BITS], (int)s.I("idx"));
+		o.truth = key_rsa_pool(RSA_POOL_BITS[((size % N_RSA_POOL_BITS) + N_RSA_POOL_BITS) % N_RSA_POOL_BITS], (int)s.I("idx"));
 		break;
 	case 2:
 		o.truth = key_gen_ec(EC_CRV[((size % 4) + 4) % 4]);
@@ -554,6 +564,17 @@ static Owner make_owner(World &w, const Step &s, uint64_t salt)
 		opts.has_kid = true;
 		opts.kid = "";
 		break;
+	case 4:
+	case 5:
+	case 6:
+	case 7:
+	case 8: {
+		static const size_t lens[] = {255, 256, 257, 300, 2048};
+		opts.has_kid = true;
+		opts.kid = strf("kid-%lld-", (long long)s.I("kidn"));
+		opts.kid.resize(lens[s.I("kid") - 4], 'k');
+		break;
+	}
 	}
 	switch (s.I("use")) {
 	case 1:
@@ -609,6 +630,7 @@ static Owner make_owner(World &w, const Step &s, uint64_t salt)
 	if (o.kind == 3 || o.kind == 2) {
 		// "d" decides private/public for EC and OKP; no foreign "d" is injected anywhere
 	}
+	o.broken = s.I("broken") != 0 && o.kind != 0;
 	set_provider((int)s.I("loadprov") ? PROV_GNUTLS : PROV_OPENSSL);
 	if (s.I("decoy")) {
 		// a malformed key from someone else is read first on the same thread (library-level failure
@@ -627,12 +649,26 @@ static Owner make_owner(World &w, const Step &s, uint64_t salt)
 		}
 		ctx.count("fault:malformed_key_read_before_import");
 	}
+	auto export_one = [&](JwkOpts &jo) -> std::string {
+		if (!o.broken)
+			return jwk_export(*o.truth, jo);
+		json_t *j = jwk_export_json(*o.truth, jo);
+		if (o.kind == 3)
+			json_object_set_new(j, "crv", json_string(s.I("broken") % 2 ? "X25519" : "ed25519"));
+		else if (o.kind == 1)
+			json_object_del(j, jo.priv ? "dq" : "e");
+		else
+			json_object_del(j, "y");
+		std::string t = json_text(j);
+		json_decref(j);
+		return t;
+	};
 	opts.priv = true;
 	plain.priv = true;
-	std::string jpriv = jwk_export(*o.truth, opts), jpriv_plain = jwk_export(*o.truth, plain);
+	std::string jpriv = export_one(opts), jpriv_plain = export_one(plain);
 	opts.priv = false;
 	plain.priv = false;
-	std::string jpub = jwk_export(*o.truth, opts), jpub_plain = jwk_export(*o.truth, plain);
+	std::string jpub = export_one(opts), jpub_plain = export_one(plain);
 	o.priv.truth = o.pub.truth = o.truth;
 	bool okp = lib_load_key(ctx, jpriv, o.priv);
 	bool oku = lib_load_key(ctx, jpub, o.pub);
@@ -644,7 +680,12 @@ static Owner make_owner(World &w, const Step &s, uint64_t salt)
 	if (opts.ec_minimal && o.kind == 2)
 		ctx.count("probe:jwk_ec_minimal_length_coordinates");
 	// the empty oct key is outside C08's quantifier (1-512 bytes); libjwt refuses it
-	bool in_domain = !(o.kind == 0 && o.truth->oct.empty());
+	bool in_domain = !(o.kind == 0 && o.truth->oct.empty()) && !o.broken;
+	if (o.broken) {
+		ctx.count("fault:owner_publishes_broken_key_document");
+		if (okp || oku)
+			ctx.violation("C07", "broken-jwk-not-flagged", o.truth->label, "a JWK with an unknown curve / incomplete private part / missing coordinate was imported without error");
+	}
 	if (in_domain && !o.ok && (s.I("late") || salt != s.uid))
 		// keys must stay importable and usable whatever provider is selected and whatever either provider did before
 		ctx.violation("C12", "key-import-depends-on-history", strf("%s:%s", o.kind == 0 ? "oct" : o.kind == 1 ? "RSA" : o.kind == 2 ? "EC" : "OKP", prov_name((int)s.I("loadprov") ? 1 : 0)),
@@ -699,14 +740,14 @@ static void do_party(World &w, const Step &s, bool checker)
 	if (!w.owners.empty() && (rd.pre || rd.cb == 2 || rd.cb == 3)) {
 		oi = (int)((uint64_t)s.I("owner") % w.owners.size());
 		o = &w.owners[(size_t)oi];
-		if (!o->ok) {
+		if (!o->ok && !(o->broken && o->priv.item && o->pub.item)) {
 			o = NULL;
 			oi = -1;
 		}
 		if (rd.other) {
 			oi2 = (int)(((uint64_t)s.I("owner") + 1 + (uint64_t)s.I("exsel") % (w.owners.size() > 1 ? w.owners.size() - 1 : 1)) % w.owners.size());
 			o2 = &w.owners[(size_t)oi2];
-			if (!o2->ok || oi2 == oi) {
+			if ((!o2->ok && !(o2->broken && o2->priv.item && o2->pub.item)) || oi2 == oi) {
 				o2 = NULL;
 				oi2 = -1;
 			}
@@ -764,6 +805,10 @@ static void do_party(World &w, const Step &s, bool checker)
 		if (!checker && !is_priv_item)
 			adm = false; // signing requires a private key
 		bool dont_care = key_alg == JWT_ALG_INVAL || E >= JWT_ALG_INVAL || E < 0;
+		// a document broken before the private part was read reports the item as public: the builder's
+		// private-key requirement then decides, which the table does not cover
+		if (!checker && o->broken)
+			dont_care = true;
 		ctx.logf("%s route=%d setkey(%s, %s key_alg=%s %s) -> %d (model admits=%d)", checker ? "VERIFIER" : "ISSUER", p.route, alg_name(E), o->truth->label.c_str(),
 			 alg_name(key_alg), p.form_priv ? "priv" : "pub", r, adm);
 		if (!dont_care && (r == 0) != adm) {
@@ -837,8 +882,17 @@ static void do_party(World &w, const Step &s, bool checker)
 			p.reject_all = true;
 			break;
 		}
-		ctx.logf("%s route=%d cb(mode=%d key=%s alg=%s)", checker ? "VERIFIER" : "ISSUER", p.route, p.cb->mode, ko && (rd.cb == 2 || rd.cb == 3) ? ko->truth->label.c_str() : "-",
-			 alg_name(cbalg));
+		if (s.I("ctxupd")) {
+			// "Calling this with a NULL cb and a new ctx after already setting the callback updates the ctx":
+			// the callback stays installed
+			int r = checker ? jwt_checker_setcb(p.chk, NULL, p.cb.get()) : jwt_builder_setcb(p.bld, NULL, p.cb.get());
+			void *g = checker ? jwt_checker_getctx(p.chk) : jwt_builder_getctx(p.bld);
+			ctx.count("probe:callback_ctx_only_update");
+			if (r != 0 || g != p.cb.get())
+				ctx.violation("C13", "ctx-update", checker ? "checker" : "builder", strf("setcb(NULL, ctx) on an object with a callback returned %d, getctx %s", r, g == p.cb.get() ? "ok" : "differs"));
+		}
+		ctx.logf("%s route=%d cb(mode=%d key=%s alg=%s)%s", checker ? "VERIFIER" : "ISSUER", p.route, p.cb->mode, ko && (rd.cb == 2 || rd.cb == 3) ? ko->truth->label.c_str() : "-",
+			 alg_name(cbalg), s.I("ctxupd") ? " +ctx-only update" : "");
 	}
 	// the builder resolves the algorithm from the callback's key when the callback left it at none
 	if (!checker && malg == JWT_ALG_NONE && mk) {
@@ -1014,7 +1068,17 @@ static const KeyTruth *party_truth(World &w, const Party &p)
 }
 
 // ---------------------------------------------------------------- ISSUE
+static void do_issue_once(World &w, const Step &s, bool keep);
+
 static void do_issue(World &w, const Step &s)
+{
+	int64_t burst = s.I("burst");
+	for (int64_t b = 1; b < burst; b++)
+		do_issue_once(w, s, false);
+	do_issue_once(w, s, true);
+}
+
+static void do_issue_once(World &w, const Step &s, bool keep)
 {
 	Ctx &ctx = w.ctx;
 	if (w.issuers.empty())
@@ -1043,6 +1107,8 @@ static void do_issue(World &w, const Step &s)
 	const AlgInfo *ha = go.ok && tp.alg_is_string ? alg_by_name(tp.alg) : NULL;
 	std::string cell = strf("%s/%s/route%d", k ? k->label.c_str() : "nokey", pin > 0 ? alg_name(pin) : "-", p.route);
 	ctx.sig(strf("ISSUE|%s|%s|ok%d", cell.c_str(), prov_name(p.prov), go.ok));
+	if (go.ok && p.has_key && p.owner >= 0 && w.owners[(size_t)p.owner].broken)
+		ctx.violation("C09", "sign-with-unusable-key", k ? k->label : "?", strf("generate succeeded with a key item the import had flagged as bad: %s", show(go.token, 160).c_str()));
 	if (go.ok) {
 		bool third_empty = tp.has2 && tp.seg[2].empty();
 		bool hdr_none = tp.alg_is_string && tp.alg == "none";
@@ -1072,6 +1138,10 @@ static void do_issue(World &w, const Step &s)
 						   k ? k->label.c_str() : "?", alg_name(p.eff_explicit), alg_name(p.key_alg)));
 			// the signature must be valid under the ground-truth key (C05 first half)
 			if (ha && ha->fam != FAM_NONE && k && key_family_ok(*k, *ha) && !third_empty && !ref_sig_valid(*k, *ha, tp.signing_input, tp.seg[2]))
+				ctx.violation("C12", "signature-not-accepted-by-other-provider", strf("%s:%s", ha->name, prov_name(p.prov)),
+					      strf("a token generated with %s on %s is rejected by the OpenSSL reference verifier (providers must accept each other's signatures): %s", k->label.c_str(),
+						   prov_name(p.prov), show(go.token, 300).c_str()));
+			if (ha && ha->fam != FAM_NONE && k && key_family_ok(*k, *ha) && !third_empty && !ref_sig_valid(*k, *ha, tp.signing_input, tp.seg[2]))
 				ctx.violation("C05", "generated-signature-invalid", strf("%s:%s", ha->name, prov_name(p.prov)),
 					      strf("token generated with %s on %s does not carry a valid signature per the reference: %s", k->label.c_str(), prov_name(p.prov), show(go.token, 300).c_str()));
 		} else {
@@ -1094,7 +1164,10 @@ static void do_issue(World &w, const Step &s)
 		m.issued_at = t0;
 		m.exp_at = p.exp_off > 0 ? t0 + p.exp_off : 0;
 		m.unsigned_tok = !p.has_key;
-		w.pool.push_back(m);
+		if (keep)
+			w.pool.push_back(m);
+		else
+			ctx.count("probe:burst_signatures");
 		// ECDSA short-coordinate probes
 		if (ha && ha->fam == FAM_ES && tp.has2) {
 			std::string sig;
@@ -1129,7 +1202,7 @@ static void do_issue(World &w, const Step &s)
 		}
 	} else {
 		// C05 completeness: usable private/symmetric key + admissible algorithm => a token
-		bool usable = p.has_key && adm && !p.pin_dontcare && pa && k && key_family_ok(*k, *pa) && key_strength_ok(*k, *pa) && provider_supports(p.prov, *pa, *k);
+		bool usable = p.has_key && !(p.owner >= 0 && w.owners[(size_t)p.owner].broken) && adm && !p.pin_dontcare && pa && k && key_family_ok(*k, *pa) && key_strength_ok(*k, *pa) && provider_supports(p.prov, *pa, *k);
 		if (usable)
 			ctx.violation("C05", "generate-failed", strf("%s:%s:%s", pa->name, k->label.c_str(), prov_name(p.prov)),
 				      strf("jwt_builder_generate returned NULL ('%s') for usable key %s and admissible algorithm %s on %s", go.msg.c_str(), k->label.c_str(), pa->name,
@@ -1238,6 +1311,17 @@ static void judge_delivery(World &w, Party &v, int vi, const std::string &tok, c
 	std::string hdralg = tp.alg_is_string ? show(tp.alg, 16) : (tp.alg_present ? "<non-string>" : "<absent>");
 	std::string kty = k ? (k->kty == K_OCT ? "oct" : k->kty == K_RSA ? "RSA" : k->kty == K_EC ? "EC" : "OKP") : "nokey";
 
+	bool unusable_key = v.has_key && v.owner >= 0 && w.owners[(size_t)v.owner].broken;
+	if (unusable_key)
+		ctx.count("probe:verify_with_key_flagged_at_import");
+	if (acc && unusable_key) {
+		// a key that never imported (no key material, 0 bits) cannot have verified anything
+		ctx.violation("C09", "verify-with-unusable-key", strf("%s:%s", kty.c_str(), hdralg.c_str()),
+			      strf("verification succeeded with a key item the import had flagged as bad (%s, %d bits reported): %s", k ? k->label.c_str() : "?",
+				   jwks_item_key_bits(v.form_priv ? w.owners[(size_t)v.owner].priv.item : w.owners[(size_t)v.owner].pub.item), show(tok, 200).c_str()));
+		ctx.violation("C01", "accepted-without-valid-signature", strf("unusable-key:%s:hdr=%s", kty.c_str(), hdralg.c_str()),
+			      strf("verifier whose key item was flagged at import accepted %s", show(tok, 300).c_str()));
+	}
 	if (acc) {
 		ctx.count("probe:deliveries_accepted");
 		// C06: malformed strings are rejected
@@ -1284,7 +1368,7 @@ static void judge_delivery(World &w, Party &v, int vi, const std::string &tok, c
 	} else {
 		// C05 completeness: pristine token of owner O with alg A to a verifier holding O's key pinned to A
 		bool live = !(src && src->exp_at && g_clock.now() >= src->exp_at); // not expired at the verifier's instant
-		if (pristine && live && src && !src->unsigned_tok && !v.expect && v.has_key && v.owner == src->owner && adm && pa && pa->id == src->alg && k && key_family_ok(*k, *pa) &&
+		if (pristine && live && !unusable_key && src && !src->unsigned_tok && !v.expect && v.has_key && v.owner == src->owner && adm && pa && pa->id == src->alg && k && key_family_ok(*k, *pa) &&
 		    key_strength_ok(*k, *pa) && provider_supports(v.prov, *pa, *k) && !v.reject_all)
 			ctx.violation("C05", "valid-token-rejected", strf("%s:%s:%s->%s", pa->name, k->label.c_str(), src->from_builder ? prov_name(src->prov) : "reference", prov_name(v.prov)),
 				      strf("pristine %s token from %s for key %s rejected by %s verifier: '%s' token=%s", pa->name, src->from_builder ? prov_name(src->prov) : "the reference signer",
